@@ -115,6 +115,47 @@ def run_stage(stage, par, fail_at, chooser=None, real=False):
     return "hang", sim.outcome, sim
 
 
+class FailLoadCollection(c03.StubCollection):
+    """a collection whose `images()` generator raises while loading image number `fail_k` (the error happens in the
+    parent, between two hand-offs, not in a worker)"""
+
+    def __init__(self, imgs, fail_k, exc):
+        super().__init__(imgs)
+        self.fail_k, self.exc = fail_k, exc
+
+    def images(self):
+        for k, im in enumerate(self.imgs):
+            if k == self.fail_k:
+                raise self.exc(f"cannot load input {k}")
+            yield im
+
+
+def run_load_failure(stage, par, nimg, fail_k, exc, chooser=None):
+    """multi-image tiling whose input number `fail_k` cannot be loaded; returns (kind, detail[, sim])"""
+    def fn():
+        imgs = [FailImage(f"img{i}", None) for i in range(nimg)]
+        coll = FailLoadCollection(imgs, fail_k, exc)
+        if stage == "multi_tan":
+            from toasty import multi_tan
+            proc = multi_tan.MultiTanProcessor.__new__(multi_tan.MultiTanProcessor)
+            proc._collection = coll
+            proc._descs = [c03.StubDesc() for _ in imgs]
+            proc._tile_parallel(c03.StubPio(), False, par)
+        else:
+            from toasty import multi_wcs
+            proc = multi_wcs.MultiWcsProcessor.__new__(multi_wcs.MultiWcsProcessor)
+            proc._collection = coll
+            proc._descs = [c03.StubDesc() for _ in imgs]
+            proc._combined_wcs = None
+            proc._tile_parallel(c03.StubPio(), lambda *a, **k: None, False, par)
+    sim = simmp.simulate(fn, chooser, max_steps=20000, hang_window=300)
+    if sim.outcome == "exception":
+        return "raised", f"{type(sim.main.exc).__name__}", sim
+    if sim.outcome == "ok":
+        return "ok", "returned normally", sim
+    return "hang", sim.outcome, sim
+
+
 def _real_target(stage, par, fail_at):
     import toasty.par_util
     toasty.par_util.SHOW_INFORMATIONAL_MESSAGES = False
@@ -174,6 +215,21 @@ def main():
                     h.violation(f"{stage}:leak", f"{stage}: raised while workers {sim.alive_at_return} were still running", input={"stage": stage})
                 if si == 0:
                     h.sample({"stage": stage, "workers": par, "fail_at": str(fa), "outcome": f"{kind}: {detail}"})
+            # an input image that cannot be LOADED (the error is raised in the parent, by the collection's generator)
+            if stage in ("multi_tan", "multi_wcs"):
+                for li in range(12 if h.deep else 5):
+                    par = rng.choice([2, 3])
+                    nimg = rng.choice([2, 3, 4])
+                    fk = rng.choice([0, nimg - 1, rng.randrange(nimg)])
+                    exc = [OSError, FileNotFoundError, ValueError, RuntimeError, KeyError][li % 5]
+                    kind, detail, sim = run_load_failure(stage, par, nimg, fk, exc, chooser=simmp.RandomChooser(rng.randrange(2 ** 31), timeout_weight=rng.choice([0.02, 0.3])))
+                    h.case((stage, "load", par, nimg, fk, exc.__name__, tuple(sim.choices)))
+                    h.count("stage", stage + ":load-failure")
+                    h.count("outcome", kind)
+                    if kind != "raised":
+                        h.violation(f"{stage}:load:{'hang' if kind == 'hang' else 'swallowed'}",
+                                    f"{stage} with {par} workers, {nimg} inputs, loading input #{fk} raising {exc.__name__}: {'did not terminate (' + detail + ')' if kind == 'hang' else 'returned normally although an input could not be loaded'}",
+                                    input={"stage": stage, "workers": par, "inputs": nimg, "fail_load": fk, "exception": exc.__name__, "choices": sim.choices[:400], "trace": sim.trace[:100]})
             # real processes
             for par in ((2, 4) if h.deep else (3,)):
                 # with real processes the arrival counter is per worker process, so an item chosen by arrival index may
